@@ -349,6 +349,7 @@ def step (cwd : Bytes) (st : St) (t : Tok) : Except Res St :=
       | none => .error (.cannotCache [101, 120, 116, 114, 97, 45, 102, 105, 108, 101, 110, 97, 109, 101])
     else if k == [112, 114, 111, 102, 105, 108, 101, 45, 117, 115, 101] && v.isSome then .ok (push { st with profile := v })
     else if k == [105, 110, 99, 114, 101, 109, 101, 110, 116, 97, 108] then .error (.cannotCache [105, 110, 99, 114, 101, 109, 101, 110, 116, 97, 108])
+    else if k == [115, 97, 118, 101, 45, 116, 101, 109, 112, 115] then .error (.cannotCache [115, 97, 118, 101, 45, 116, 101, 109, 112, 115])      -- "save-temps" (fix F-C05-c)
     else .ok (push st)
   | .val _ .unstable (.kv k v) =>
     let yes := v == none || v == some [121] || v == some [121, 101, 115] || v == some [111, 110]
